@@ -751,3 +751,74 @@ func init() {
 		},
 	})
 }
+
+func init() {
+	register(&Rule{
+		Name: "serialize-essentials", Props: []string{"C05", "C18"}, Engine: "AST", Floor: 7,
+		Doc: "the glue between a frame body and the octets that leave: a SETTINGS acknowledgement goes out with the ACK flag and an empty payload, any other SETTINGS frame with its freshly encoded parameters; setPayload replaces the payload with a copy; SetBody records the body and its type; the HEADERS block setters replace, append to and encode into the block they say they do; a parsed priority section is marked present, and padding asked for is flagged and added",
+		Run: func(p *Prog, r *Out) {
+			if fd := p.decl("(*Settings).Serialize"); fd != nil {
+				r.fn("(*Settings).Serialize")
+				okS := false
+				if len(fd.Body.List) == 1 {
+					if ifs, ok := fd.Body.List[0].(*ast.IfStmt); ok && squash(p.text(ifs.Cond)) == "st.ack" {
+						a := stmtTexts(p, ifs.Body.List)
+						var b []string
+						if eb, ok := ifs.Else.(*ast.BlockStmt); ok {
+							b = stmtTexts(p, eb.List)
+						}
+						okS = len(a) == 2 && a[0] == "fr.SetFlags(fr.Flags().Add(FlagAck))" && a[1] == "fr.payload=fr.payload[:0]" &&
+							len(b) == 2 && b[0] == "st.Encode()" && b[1] == "fr.setPayload(st.rawSettings)"
+					}
+				}
+				r.check(okS, "SETTINGS goes out as an empty acknowledgement or with its encoded parameters", p.pos(fd.Pos()), "ack: ACK flag, empty payload; else: Encode(); setPayload(rawSettings)", "Settings.Serialize no longer writes an acknowledgement as the ACK flag with an empty payload (a payload there is a FRAME_SIZE_ERROR) and any other frame as its freshly encoded parameters")
+			}
+			if fd := p.decl("(*FrameHeader).setPayload"); fd != nil {
+				r.fn("(*FrameHeader).setPayload")
+				t := stmtTexts(p, fd.Body.List)
+				r.check(len(t) == 1 && t[0] == "f.payload=append(f.payload[:0],payload...)", "setPayload replaces the payload with a copy", p.pos(fd.Pos()), "f.payload = append(f.payload[:0], payload...)", "setPayload no longer replaces the frame's payload with a copy of what it is given: octets of the previous frame survive, or the frame aliases a buffer its owner goes on to change")
+			}
+			if fd := p.decl("(*FrameHeader).SetBody"); fd != nil {
+				r.fn("(*FrameHeader).SetBody")
+				r.check(hasStmt(p, fd.Body.List, "f.kind=fr.Type()") && hasStmt(p, fd.Body.List, "f.fr=fr"), "SetBody records the body and its type", p.pos(fd.Pos()), "f.kind = fr.Type(); f.fr = fr", "SetBody no longer records the body together with its frame type: the frame goes out under the type of whatever the header held before")
+			}
+			for _, m := range []struct{ fn, want, why string }{
+				{"(*Headers).SetHeaders", "h.rawHeaders=append(h.rawHeaders[:0],b...)", "SetHeaders no longer replaces the block"},
+				{"(*Headers).AppendRawHeaders", "h.rawHeaders=append(h.rawHeaders,b...)", "AppendRawHeaders no longer appends to the block"},
+				{"(*Headers).AppendHeaderField", "h.rawHeaders=hp.AppendHeader(h.rawHeaders,hf,store)", "AppendHeaderField no longer encodes the field onto the block with the given encoder and indexing choice"},
+			} {
+				fd := p.decl(m.fn)
+				if fd == nil {
+					r.undecided(m.fn, "?", "no longer resolves")
+					continue
+				}
+				r.fn(m.fn)
+				t := stmtTexts(p, fd.Body.List)
+				r.check(len(t) == 1 && t[0] == m.want, m.fn+" does what its name says", p.pos(fd.Pos()), m.want, m.why)
+			}
+			if fd := p.decl("(*Headers).Deserialize"); fd != nil {
+				okP := false
+				ast.Inspect(fd.Body, func(n ast.Node) bool {
+					ifs, ok := n.(*ast.IfStmt)
+					if ok && squash(p.text(ifs.Cond)) == "flags.Has(FlagPriority)" && hasStmt(p, ifs.Body.List, "h.priority=true") {
+						okP = true
+					}
+					return true
+				})
+				r.check(okP, "a parsed priority section is marked present", p.pos(fd.Pos()), "under FlagPriority: h.priority = true", "Headers.Deserialize no longer records that the frame carried a priority section: written out again the frame has lost it")
+			}
+			if fd := p.decl("(*Headers).Serialize"); fd != nil {
+				okPad := false
+				ast.Inspect(fd.Body, func(n ast.Node) bool {
+					ifs, ok := n.(*ast.IfStmt)
+					if ok && squash(p.text(ifs.Cond)) == "h.hasPadding" {
+						t := stmtTexts(p, ifs.Body.List)
+						okPad = len(t) == 2 && t[0] == "frh.SetFlags(frh.Flags().Add(FlagPadded))" && t[1] == "h.rawHeaders=http2utils.AddPadding(h.rawHeaders)"
+					}
+					return true
+				})
+				r.check(okPad, "padding asked for is flagged and added", p.pos(fd.Pos()), "if hasPadding { PADDED flag; AddPadding }", "Headers.Serialize no longer sets the PADDED flag together with adding the padding: one without the other is a frame the peer misreads")
+			}
+		},
+	})
+}
